@@ -4,7 +4,7 @@
    the model must predict the party's result. *)
 From Coq Require Import List NArith Bool.
 Import ListNotations.
-From VF Require Export C02.Model.
+From VF Require Export C02.Model C02.Text.
 Local Open Scope N_scope.
 
 Inductive uobs := UOk (m from to : N) | URej.
@@ -22,18 +22,33 @@ Definition proj (r : res (term * option N * N)) : uobs :=
   end.
 
 (* c_up = None: through the packager's dispatch; Some p: packer p's Unpack *)
-Record case := { c_h1 : henv; c_h2 : henv; c_E : wire -> wire -> wire; c_up : option packer;
+(* c_alt = Some (legacy, member, chars): a GROUP of cases — the adversarial envelopes are the first honest envelope with
+   ONE base64 member altered by a single character edit; the case carries the member's original characters once and,
+   per alteration (c_alts), the edit, the position, the recorded UnwrapKey calls and the observed result only.  The
+   model (C02/Text.v) decodes both strings, decides what each alteration means and builds the adversarial envelope
+   itself (c_E, c_att, c_obs are not used); the honest member must be the canonical encoding of its bytes. *)
+Record altobs := mkao { ao_edit : edit; ao_pos : nat; ao_junk : N; ao_att : option (list attempt); ao_obs : uobs }.
+Record case := { c_h1 : henv; c_h2 : henv; c_E : wire -> wire -> wire;
+                 c_alt : option (bool * member * list N); c_alts : list altobs; c_up : option packer;
                  c_party : list N; c_att : option (list attempt); c_obs : uobs }.
+
+Definition check_E (c : case) (E : wire) (att : option (list attempt)) (obs : uobs) : bool :=
+  match att with Some l => attempts_eqb l (attempts Fixed (c_party c) E) | None => true end &&
+  uobs_eqb obs (proj (match c_up c with
+                      | None => unpack_pkgr Fixed (c_party c) E
+                      | Some p => unpack Fixed p (c_party c) E
+                      end)).
 
 Definition check_case (c : case) : bool :=
   match hpack (c_h1 c), hpack (c_h2 c) with
   | Ok w1, Ok w2 =>
-      let E := c_E c w1 w2 in
-      match c_att c with Some l => attempts_eqb l (attempts Fixed (c_party c) E) | None => true end &&
-      uobs_eqb (c_obs c) (proj (match c_up c with
-                                | None => unpack_pkgr Fixed (c_party c) E
-                                | Some p => unpack Fixed p (c_party c) E
-                                end))
+      match c_alt c with
+      | Some (leg, m, old) =>
+          canonical leg old &&
+          forallb (fun ao => check_E c (altered (mkalt leg m old (ao_edit ao) (ao_pos ao) (ao_junk ao)) w1) (ao_att ao) (ao_obs ao))
+                  (c_alts c)
+      | None => check_E c (c_E c w1 w2) (c_att c) (c_obs c)
+      end
   | _, _ => false
   end.
 
